@@ -466,7 +466,7 @@ fn parse_proguard_header(bytes: &[u8]) -> Result<(ProguardRecord, &[u8]), ParseE
     let bytes = parse_prefix(bytes, b"#")?;
 
     if let Ok(bytes) = parse_prefix(bytes, SOURCE_FILE_PREFIX) {
-        let (value, bytes) = parse_until(bytes, |c| *c == b'"')?;
+        let (value, bytes) = parse_until_no_newline(bytes, |c| *c == b'"')?;
         let bytes = parse_prefix(bytes, br#""}"#)?;
 
         let record = ProguardRecord::Header {
